@@ -72,6 +72,8 @@ impl ThreadPool {
 
     /// Starts the thread pool.
     pub fn start(&mut self) {
+        #[cfg(humphrey_verif)]
+        crate::verif::point("Pool_Start", self.thread_count as i64, 0);
         let (tx, rx): (Sender<Message>, Receiver<Message>) = channel();
         let rx = Arc::new(Mutex::new(rx));
         let mut threads = Vec::with_capacity(self.thread_count);
@@ -105,6 +107,8 @@ impl ThreadPool {
     /// Stops the thread pool.
     pub fn stop(&mut self) {
         self.recovery_thread = None;
+        #[cfg(humphrey_verif)]
+        crate::verif::point("Pool_Stop", 0, 0);
         self.tx.send(Message::Shutdown).unwrap();
         self.monitor = None;
         self.started = false;
@@ -127,6 +131,8 @@ impl ThreadPool {
 
         let boxed_task = Box::new(task);
         let time_into_pool = Instant::now();
+        #[cfg(humphrey_verif)]
+        crate::verif::point("Pool_Execute", 0, 0);
         self.tx
             .send(Message::Function(boxed_task, time_into_pool))
             .unwrap();
@@ -150,8 +156,12 @@ impl Thread {
             .name(format!("{}", id))
             .spawn(move || {
                 let panic_marker = PanicMarker(id, panic_tx);
+                #[cfg(humphrey_verif)]
+                let rx = traced::TracedRx(rx, id);
 
                 loop {
+                    #[cfg(humphrey_verif)]
+                    crate::verif::point("Worker_Loop", id as i64, 0);
                     // When the tx pair has been dropped (shutdown initiated), we want to break out.
                     let task = match rx.lock() {
                         Ok(res) => match res.recv() {
@@ -177,6 +187,8 @@ impl Thread {
                     }
                 }
 
+                #[cfg(humphrey_verif)]
+                crate::verif::point("Worker_Exit", id as i64, 0);
                 drop(panic_marker);
             })
             .expect("Thread could not be spawned");
@@ -190,6 +202,8 @@ impl Thread {
 
 impl Drop for ThreadPool {
     fn drop(&mut self) {
+        #[cfg(humphrey_verif)]
+        crate::verif::point("Pool_DropBegin", self.recovery_thread.is_some() as i64, 0);
         if let Some(mut recovery_thread) = self.recovery_thread.take() {
             if let Some(thread) = recovery_thread.0.take() {
                 thread.join().unwrap();
@@ -197,9 +211,54 @@ impl Drop for ThreadPool {
         }
 
         for thread in &mut *self.threads.lock().unwrap() {
+            #[cfg(humphrey_verif)]
+            crate::verif::point("Pool_DropHandle", thread.id as i64, 0);
             if let Some(thread) = thread.os_thread.take() {
                 drop(thread)
             }
+        }
+        #[cfg(humphrey_verif)]
+        crate::verif::point("Pool_DropEnd", 0, 0);
+    }
+}
+
+/// Verification wrapper (only with `--cfg humphrey_verif`): forwards `lock`/`recv` of the shared task
+/// receiver to the real ones and reports `Worker_Lock` / `Worker_Recv` while the real guard is held.
+#[cfg(humphrey_verif)]
+mod traced {
+    use super::Message;
+    use std::sync::mpsc::{Receiver, RecvError};
+    use std::sync::{Arc, Mutex, MutexGuard};
+
+    pub struct TracedRx(pub Arc<Mutex<Receiver<Message>>>, pub usize);
+    pub struct TracedGuard<'a>(MutexGuard<'a, Receiver<Message>>, usize);
+
+    impl TracedRx {
+        pub fn lock(&self) -> Result<TracedGuard<'_>, ()> {
+            match self.0.lock() {
+                Ok(guard) => {
+                    crate::verif::point("Worker_Lock", self.1 as i64, 0);
+                    Ok(TracedGuard(guard, self.1))
+                }
+                Err(_) => {
+                    crate::verif::point("Worker_Lock", self.1 as i64, 1);
+                    Err(())
+                }
+            }
+        }
+    }
+
+    impl TracedGuard<'_> {
+        /// Second argument of the point: 0 = Function, 1 = Shutdown, 2 = channel disconnected.
+        pub fn recv(&self) -> Result<Message, RecvError> {
+            let res = self.0.recv();
+            let kind = match &res {
+                Ok(Message::Function(..)) => 0,
+                Ok(Message::Shutdown) => 1,
+                Err(_) => 2,
+            };
+            crate::verif::point("Worker_Recv", self.1 as i64, kind);
+            res
         }
     }
 }
